@@ -23,6 +23,7 @@ import (
 	"time"
 
 	"github.com/arloliu/go-secs/v2/hsms"
+	"github.com/arloliu/go-secs/v2/hsmsss"
 
 	"verifharness/cmd/c06/sc"
 	"verifharness/vh"
@@ -734,9 +735,170 @@ func gateScenarios(c *vh.Ctx, active bool) {
 			return acts, e, nil
 		}}
 	}
+	// B2 with the state gone to NotCONNECTED: the sender (or the async sender) is parked at the write
+	// boundary (after-write-lock seam) while the supervisor stores NotConnected for one of the causes
+	// — involuntary drop (peer closes), peer Separate.req, voluntary Close — and is itself parked at
+	// the start of its reaction (react seam), i.e. the generation ctx and the socket are still live.
+	// The re-check must refuse whenever the state is not Selected: no byte written, NotSelected, one drop.
+	mkNC := func(ep, cause string) sn {
+		return sn{"b2-notconnected/" + cause + "/" + ep, func() ([]string, *sc.Env, error) {
+			e, err := sc.NewEnv(false, 1, t3, t6)
+			if err != nil {
+				return nil, nil, err
+			}
+			var acts []string
+			if err := e.Open(false); err != nil {
+				return nil, e, err
+			}
+			p, err := e.Connect(3 * time.Second)
+			if err != nil {
+				return nil, e, err
+			}
+			defer p.Close()
+			if err := e.Select(p, 7); err != nil {
+				return nil, e, err
+			}
+			if err := e.WaitNotified(hsms.SelectedState, 1, 3*time.Second); err != nil {
+				return nil, e, err
+			}
+			acts = append(acts, "N", "U", "P "+sc.SelectReq(e.Sid, 7).M(), "D", "Q1")
+			inReact := make(chan struct{}, 1)
+			releaseReact := make(chan struct{})
+			if !hsms.VerifHookReact(hsmsss.VerifCore(e.Conn), func(prev, next hsms.ConnState) {
+				if next == hsms.NotConnectedState {
+					select {
+					case inReact <- struct{}{}:
+					default:
+					}
+					select {
+					case <-releaseReact:
+					case <-time.After(10 * time.Second):
+					}
+				}
+			}) {
+				return nil, e, fmt.Errorf("react seam not available")
+			}
+			e.Cond(true)
+			e.Metric()
+			acts = append(acts, "C", "M")
+			returned := make(chan struct{})
+			hookErr := make(chan error, 1)
+			closeDone := make(chan struct{})
+			isAsync := ep == "async" || ep == "forwardasync" || ep == "reply"
+			var causeActs string
+			e.SetAfterWriteLock(func() {
+				if isAsync {
+					<-returned
+				}
+				switch cause {
+				case "peer-close":
+					e.Down()
+					_ = p.Conn.Close()
+					causeActs = "F ; X"
+				case "peer-separate":
+					sep := sc.SeparateReq(e.Sid, 9)
+					if _, err := p.SendF(sep); err != nil {
+						hookErr <- err
+						return
+					}
+					e.Down()
+					causeActs = "P " + sep.M() + " ; D ; X"
+				case "close":
+					e.Down()
+					go func() { _ = e.Conn.Close(); close(closeDone) }()
+					causeActs = "X"
+				}
+				select {
+				case <-inReact:
+					hookErr <- nil
+				case <-time.After(5 * time.Second):
+					hookErr <- fmt.Errorf("the supervisor did not reach its reaction")
+				}
+			})
+			e.Call(context.Background(), ep, 1)
+			close(returned)
+			select {
+			case err := <-hookErr:
+				if err != nil {
+					close(releaseReact)
+					return nil, e, err
+				}
+			case <-time.After(8 * time.Second):
+				close(releaseReact)
+				return nil, e, fmt.Errorf("after-write-lock seam did not run")
+			}
+			if isAsync {
+				// the async sender reports the refusal through the error handler
+				dl := time.Now().Add(3 * time.Second)
+				for time.Now().Before(dl) {
+					seen := false
+					for _, en := range e.Rec.Entries() {
+						if en.K == 'A' && en.ID == 1 {
+							seen = true
+						}
+					}
+					if seen {
+						break
+					}
+					time.Sleep(200 * time.Microsecond)
+				}
+			}
+			e.Metric()
+			es := e.Rec.Entries()
+			log := sc.Render(es)
+			var tmpl, kind string
+			for _, en := range es {
+				if en.K == 'S' && en.ID == 1 {
+					f := *en.F
+					kind = en.Kind
+					tmpl = fmt.Sprintf("S 1 %s %s", en.Kind, f.M())
+				}
+			}
+			switch {
+			case isAsync:
+				acts = append(acts, tmpl, "G 1 go", "G 1 go", "G 1 eok", causeActs, "Q1")
+			case kind == "KForward" || ep == "syncnw":
+				acts = append(acts, tmpl, "G 1 go", "G 1 go", causeActs, "G 1 go", "G 1 go")
+			default:
+				acts = append(acts, tmpl, "G 1 go", "G 1 go", "G 1 go", causeActs, "G 1 go", "G 1 go")
+			}
+			acts = append(acts, "M")
+			// implementation-level oracle: refused with not-selected, one drop, nothing on the wire
+			refused := false
+			for _, en := range es {
+				if (en.K == 'R' && en.ID == 1 && en.Result == "notsel") || (en.K == 'A' && en.ID == 1 && en.Result == "notsel") {
+					refused = true
+				}
+				if en.K == 'V' && en.ID == 1 {
+					cx.Fail("C07: a data message that reached the write boundary after the state had gone to NotConnected ("+cause+") was written ("+ep+")", log)
+				}
+			}
+			if !refused {
+				cx.Fail("C07: a data message that reached the write boundary after the state had gone to NotConnected ("+cause+") was not refused with not-selected ("+ep+")", log)
+			}
+			if d := e.Conn.Metrics().DataMsgDropNotSelectedCount(); d != 1 {
+				cx.Fail(fmt.Sprintf("C07: write-boundary refusal after NotConnected (%s) moved the drop counter by %d, want 1 (%s)", cause, d, ep), log)
+			}
+			// the compared log ends here; now let the reaction (farewell / teardown) proceed
+			e.SnapshotLog = log
+			e.Down()
+			close(releaseReact)
+			if cause == "close" {
+				select {
+				case <-closeDone:
+				case <-time.After(10 * time.Second):
+					return nil, e, fmt.Errorf("Close did not return")
+				}
+			}
+			return acts, e, nil
+		}}
+	}
 	var list []sn
 	for _, ep := range sc.EntryPoints {
 		list = append(list, mk(ep.Name, false), mk(ep.Name, true), mkB2(ep.Name), mkOrphan(ep.Name))
+		for _, cause := range []string{"peer-close", "peer-separate", "close"} {
+			list = append(list, mkNC(ep.Name, cause))
+		}
 	}
 	for _, s := range list {
 		acts, e, err := s.run()
@@ -748,6 +910,9 @@ func gateScenarios(c *vh.Ctx, active bool) {
 			continue
 		}
 		log := sc.Render(e.Rec.Entries())
+		if e.SnapshotLog != "" {
+			log = e.SnapshotLog
+		}
 		_ = e.Close()
 		line := fmt.Sprintf("T %d %d %d %s | %s", t3.Milliseconds(), t6.Milliseconds(), 1, strings.Join(acts, " ; "), log)
 		c.Case(line, "gate "+s.name, true)
